@@ -25,7 +25,7 @@ func init() {
 		Run:    runC16,
 		Replay: replayC16,
 		MinExercised: map[string]int64{"method.value": 5000, "method.reject": 1000, "decimal.value": 2000, "decimal.range": 2000, "decimal.args": 50, "string.roundtrip": 50,
-			"kv.shape": 200, "kv.id.equal": 200, "kv.id.distinct": 100, "kv.id.stable": 100},
+			"method.exists": 2000, "kv.shape": 200, "kv.id.equal": 200, "kv.id.distinct": 100, "kv.id.stable": 100},
 		Assumptions: []string{
 			"rounding ties may be broken half-away-from-zero or half-even; .decimal(p,s) may round the decimal text or the binary value and is compared with a tolerance of 4 ulp (documented float64 caveat); it must satisfy |result| < 10^(p-s)",
 			"string inputs are asserted only in canonical JSON-number form (integral strings for .integer()/.bigint()); inputs outside float64/int64 range are checked for totality only",
@@ -94,6 +94,20 @@ func checkMethodGrid(c *h.Ctx, method, docText string, useNum, lax bool) {
 			feat["input"] = inputKind(docText, useNum)
 			c.Violate(clause, feat, "."+method+"() on "+docText+": "+detail, cs)
 		}
+		// asked only for existence (Exists, exists() in a filter), a
+		// scalar input is accepted or rejected exactly as by Query
+		if docText[0] != '[' && !silent && o.Class != h.Panic && o.Class != h.Invalid {
+			oe := h.Call("exists", p, ec.DocValue(), ec.Opts())
+			of := h.Call("query", cachedPath(mode+"$ ? (exists(@."+method+"()))"), ec.DocValue(), ec.Opts())
+			c.Eval(2)
+			okE := oe.Class == o.Class && (o.Class != h.OK || oe.Bool == (len(o.Items) > 0))
+			okF := of.Class == h.OK && (len(of.Items) == 1) == (o.Class == h.OK && len(o.Items) > 0)
+			if !okE || !okF {
+				c.Violate("method.exists", h.F("method", method, "input", inputKind(docText, useNum), "query", o.Class), fmt.Sprintf("%s on %s: Query %s, Exists %s, $ ? (exists(@.%s())) %s", ptxt, docText, o.Summary(), oe.Summary(), method, of.Summary()), cs)
+			} else {
+				c.Held("method.exists")
+			}
+		}
 		// range: never a value outside the method's range
 		if o.Class == h.OK {
 			for _, it := range o.Items {
@@ -158,6 +172,21 @@ func decimalCheck(c *h.Ctx, valText string, repr string, p, s int64) {
 		doc = h.Decode(valText, false)
 	case "num":
 		doc = h.Decode(valText, true)
+	case "i64", "lit":
+		// an int64 item: a Go int64 in the document, or an integer literal of the path
+		iv, err := strconv.ParseInt(valText, 10, 64)
+		if err != nil {
+			return
+		}
+		doc = iv
+		if repr == "lit" {
+			ptxt = fmt.Sprintf("(%s).decimal(%d,%d)", valText, p, s)
+			if pp = cachedPath(ptxt); pp == nil {
+				c.Count("gen.unparsable", 1)
+				return
+			}
+			doc = nil
+		}
 	default:
 		doc = valText
 		docText = strconv.Quote(valText)
@@ -654,6 +683,18 @@ func runC16(c *h.Ctx) {
 		}
 	}
 	// decimal grid
+	// integers with exactly p-s digits, of either sign, in every representation
+	for _, t := range []string{"-1", "9", "-9", "-123", "999", "-999", "-1000", "12", "-12", "-99", "-2147483648", "2147483647", "-999999999999999", "999999999999999", "-9999999999999999", "-1234567890123456"} {
+		for _, ps := range [][2]int64{{1, 0}, {2, 0}, {3, 0}, {4, 0}, {5, 2}, {3, 1}, {10, 0}, {15, 0}, {16, 0}, {17, 1}, {2, -1}, {1, -2}} {
+			idx++
+			if !c.Mine(idx) {
+				continue
+			}
+			for _, rp := range []string{"f64", "num", "str", "i64", "lit"} {
+				decimalCheck(c, t, rp, ps[0], ps[1])
+			}
+		}
+	}
 	ps := []int64{1, 2, 3, 15, 16, 17, 38, 1000}
 	ss := []int64{-1000, -2, -1, 0, 1, 2, 15, 1000}
 	for _, t := range c16Nums {
@@ -663,7 +704,7 @@ func runC16(c *h.Ctx) {
 				if !c.Mine(idx) {
 					continue
 				}
-				for _, rp := range []string{"f64", "num", "str"} {
+				for _, rp := range []string{"f64", "num", "str", "i64", "lit"} {
 					decimalCheck(c, t, rp, p, s)
 				}
 			}
